@@ -170,9 +170,14 @@ def run_selection(ctx, T):
 # ------------------------------------------------------------------------------------------------------------
 # (b) cost
 # ------------------------------------------------------------------------------------------------------------
+_MEASURED = [0]
+
+
 def measure(fn, seconds=25.0):
     import gc
-    gc.collect()
+    _MEASURED[0] += 1
+    if _MEASURED[0] % 16 == 1:     # the peak is taken relative to the level at the start of the call; a full collection
+        gc.collect()               # every few calls only keeps the process small (it costs 50 ms with cola's many objects)
     tracemalloc.start()
     base = tracemalloc.get_traced_memory()[0]
     tracemalloc.reset_peak()
@@ -255,6 +260,87 @@ def small_factor_operators(ctx, rng):
             ops[f"kron_smalldense_{tag}"] = Kronecker(*[fac(n, False) for n in sizes])
         if i % 3 != 1:
             ops[f"kronsum_small_{tag}"] = KronSum(*[fac(n, False) for n in sizes])
+    return ops
+
+
+# The property's own bound, used as the ORACLE (independent of the Coq model): peak additional memory of one call is at
+# most  K1 * operand bytes  +  K2 * (sum of the dense sizes of the individual factors, in bytes)  +  SLACK.
+#   operand = the array the call consumes/produces (X for A @ X, the right-hand side / result vector for the
+#             linear-algebra entry points, a length-n vector for diag / trace / logdet);
+#   K1 = 12 for products (the worst matrix-free product of the unchanged tree, a Kronecker sum with 4 columns, keeps
+#        5.3 operand-sized arrays alive; nesting adds at most one reshape copy per level) and for the entry points
+#        (result, right-hand side, per-factor intermediates of the factor-wise product);
+#   K2 = 2 for products (no factor is copied; margin for one dtype conversion) and 48 for the entry points (a dense
+#        factorisation of one leaf: to_dense through an identity + the product, P/L/U or eigenvectors -- complex, i.e.
+#        two units -- and their inverses; 15 leaf-sized arrays measured for sqrt of a Kronecker product, x3 margin);
+#   SLACK = 256 KiB of python objects / small temporaries.
+# Anything that allocates c^2 for a multiplicity c, n^2 for the full size, or n x max_iters without being asked for an
+# iterative algorithm lands far above it at the sizes generated here.
+K1_MATMAT, K2_MATMAT, K1_LINALG, K2_LINALG, SLACK = 12, 2, 12, 48, 256 * 1024
+
+
+def leaf_bytes(A):
+    """sum of the dense sizes of the individual factors (bytes): what the operator itself stores"""
+    c = type(A).__name__.split("[")[0]
+    if hasattr(A, "Ms"):
+        return sum(leaf_bytes(M) for M in A.Ms)
+    if c in ("Dense", "Triangular"):
+        return A.A.nbytes
+    if c == "Diagonal":
+        return A.diag.nbytes
+    if c == "Permutation":
+        return np.asarray(A.perm).nbytes
+    if c == "Tridiagonal":
+        return A.alpha.nbytes + A.beta.nbytes + A.gamma.nbytes
+    if c in ("Transpose", "Adjoint"):
+        return leaf_bytes(A.A)
+    return np.dtype(A.dtype).itemsize
+
+
+def property_bound(operand_bytes, A, linalg):
+    k1, k2 = (K1_LINALG, K2_LINALG) if linalg else (K1_MATMAT, K2_MATMAT)
+    return k1 * operand_bytes + k2 * leaf_bytes(A) + SLACK
+
+
+def wide_operators(ctx, rng):
+    """regimes in which the property's bound separates from c^2 (c a multiplicity), from n^2 and from per-level
+    copies: multiplicities in the hundreds / thousands, many tiny factors, many terms, long chains, identity / diagonal
+    factors inside a Kronecker product, rectangular blocks, deep nesting, float32 and complex payloads."""
+    from cola.ops import Dense, Kronecker, KronSum, BlockDiag, Diagonal, Identity, ScalarMul, Permutation, Tridiagonal, Sum, Product
+    PSD = cola.PSD
+    f64 = np.float64
+    d = lambda n: PSD(Dense(spd(rng, n)))  # noqa
+    s = ctx.rng.randint(0, 3)
+    ops = {}
+    ops["block_mult_1200x2_400x3"] = BlockDiag(d(2), d(3), multiplicities=[1200, 400])
+    ops["block_mult_5000x4"] = BlockDiag(d(4), multiplicities=[5000 + 100 * s])
+    ops["block_mult_mixed"] = BlockDiag(d(6), d(2), d(9 + s), multiplicities=[700, 1, 300])
+    sizes = [ctx.rng.randint(2, 8) for _ in range(ctx.budget(20, 60))]
+    ops["block_60blocks"] = BlockDiag(*[d(x) for x in sizes], multiplicities=[ctx.rng.randint(1, 40) for _ in sizes])
+    ops["block_rect"] = BlockDiag(Dense(rng.standard_normal((30, 20))), Dense(rng.standard_normal((10, 40))), multiplicities=[100, 50 + s])
+    ops["kron_12x2"] = Kronecker(*[d(2) for _ in range(12)])
+    ops["kron_8x3"] = Kronecker(*[d(3) for _ in range(8)])
+    ops["kronsum_5terms"] = KronSum(d(5), d(4), d(6), d(3 + s), d(5))
+    ops["kron_ident_dense"] = Kronecker(Identity((100 + s, 100 + s), f64), d(100))
+    ops["kron_dense_ident"] = Kronecker(d(60), Identity((150, 150), f64))
+    ops["kron_diag_dense"] = Kronecker(PSD(Diagonal(1. + rng.random(200))), d(50))
+    K = Kronecker(d(100), d(100))
+    n = K.shape[0]
+    terms = [K, PSD(Diagonal(1. + rng.random(n))), ScalarMul(2., (n, n), f64), Kronecker(d(10), d(10), d(100))]
+    ops["sum_20terms"] = Sum(*[terms[i % 4] for i in range(20)])
+    chain = [K, Diagonal(1. + rng.random(n)), Permutation(rng.permutation(n), f64), Kronecker(d(10), d(10), d(100)), ScalarMul(1.5, (n, n), f64)]
+    ops["product_15factors"] = Product(*[chain[i % 5] for i in range(15)])
+    ops["nested_deep"] = Kronecker(BlockDiag(Kronecker(d(3), d(4)), d(5), multiplicities=[3, 4]), d(20), BlockDiag(d(2), multiplicities=[6]))
+    a32 = lambda n: Dense(spd(rng, n).astype(np.float32))  # noqa
+    ops["kron_float32"] = Kronecker(a32(90), a32(100))
+    def ac(n):   # Hermitian positive definite
+        C = 0.05 * np.triu(rng.standard_normal((n, n)), 1)
+        return Dense(spd(rng, n) + 1j * (C - C.T))
+    ops["kron_complex"] = Kronecker(ac(60), ac(100))
+    ops["block_complex_mult"] = BlockDiag(ac(3), multiplicities=[2000])
+    for nm, c in (("int", 3), ("float", 2.5), ("np.float32", np.float32(2.)), ("np.int64", np.int64(3)), ("ndarray0d", np.array(2.))):
+        ops[f"scalar_{nm}_times_kron"] = c * Kronecker(d(20), d(20), d(25))
+    ops["scalar_complex_times_kron"] = (1 + 1j) * Kronecker(d(20), d(20), d(25))
     return ops
 
 
@@ -349,35 +435,52 @@ def run_cost(ctx, T, flags):
     import cola.linalg as LA
     import c04_universe as U
     Auto = LA.Auto
+    full = ctx.tier == "thorough"
     ops = big_operators(ctx)
     mism, samples = [], []
     rng = np.random.default_rng(ctx.seed)
     # --- matmat ---
+    wide = wide_operators(ctx, np.random.default_rng(ctx.seed + 29))
     cases, runs = [], []
-    for name, A in ops.items():
+    for name, A in list(ops.items()) + list(wide.items()):
         t = shape_tree(A)
-        if t is None:
-            mism.append(dict(oracle_fail=False, what="operator outside the cost model", case=name))
-            continue
-        for k in (1, 4):
-            cases.append((f"{name}@{k}", t, k))
-            runs.append((name, A, k))
+        ks = [1, 4]
+        if name in wide:
+            ks = ["vec", 4] + ([32] if name.startswith(("block_mult", "kron_12", "kronsum_5", "sum_20")) else [])
+        for k in ks:
+            kk = 1 if k == "vec" else k
+            cases.append((f"{name}@{k}", t if t is not None else "(SIdent 1)", kk))
+            runs.append((name, A, k, t is not None))
     model, log = coq_cost(cases)
     if model is None:
-        mism.append(dict(oracle_fail=False, what="cost shard did not compile; only the absolute bound peak < n*n is checked", log=log[-1500:]))
+        mism.append(dict(oracle_fail=False, what="cost shard did not compile; only the property's own bound is checked", log=log[-1500:]))
         model = _NoModel()
     ratios = {}
-    for (cname, _, _), (name, A, k) in zip(cases, runs):
-        n = A.shape[0]
-        X = rng.standard_normal((n, k))
-        m = model[cname]
+    worst_mm = 0.0
+    for (cname, _, _), (name, A, k, modelled) in zip(cases, runs):
+        rows, cols = A.shape
+        nn = rows * cols
+        kk = 1 if k == "vec" else k
+        dt_ = np.dtype(A.dtype)
+        X = rng.standard_normal((cols,) if k == "vec" else (cols, kk)).astype(dt_ if dt_.kind != "c" else np.float64)
+        if dt_.kind == "c":
+            X = X.astype(dt_)
+        item = dt_.itemsize
+        m = model[cname] if modelled else None
         out, peak, dt, err = measure(lambda: A @ X)
-        pe = peak / 8.0
-        if pe >= n * n and not err:
-            mism.append(dict(oracle_fail=True, what="A @ X allocated at least the dense n*n matrix", case=cname, n=n, k=k, peak_elems=round(pe), dense=n * n))
+        pe = peak / item
+        operand = max(X.nbytes, max(rows, cols) * kk * item)
+        pbound = property_bound(operand, A, linalg=False)
+        worst_mm = max(worst_mm, peak / pbound)
+        if peak > pbound and not err:
+            mism.append(dict(oracle_fail=True, what="A @ X: peak additional memory exceeds the property's bound "
+                                                    f"{K1_MATMAT} x operand + {K2_MATMAT} x (dense sizes of the factors) + slack",
+                             case=cname, shape=[rows, cols], k=k, dtype=str(dt_), peak_bytes=int(peak), bound_bytes=int(pbound), operand_bytes=int(operand),
+                             factor_bytes=int(leaf_bytes(A)), dense_bytes=nn * item, times_bound=round(peak / pbound, 1)))
             continue
         if m is None:
             continue
+        n = rows
         storage = m["storage"]
         rec = dict(case=cname, n=n, k=k, peak_elems=round(pe), model_max=m["maxalloc"], model_total=m["total"], storage=storage, seconds=round(dt, 4))
         ratios[cname] = round(pe / max(m["total"], 1), 3)
@@ -388,17 +491,16 @@ def run_cost(ctx, T, flags):
             bad = f"product raised {err}"
         elif not m["ok"]:
             bad = "model says the operator is outside the structured class"
-        elif storage * 1000 > n * n:
+        elif name in ops and storage * 1000 > nn:
             bad = "generator produced an operator whose factor storage exceeds n^2/1000"
         elif pe > 3 * m["total"] + 4096:
             bad = "peak above 3x the model's total allocation"
         elif 3 * pe + 4096 < m["maxalloc"]:
             bad = "peak below a third of the model's largest allocation (model over-counts)"
-        elif m["maxalloc"] > 2 * n * k:
+        elif m["maxalloc"] > (rows + cols) * kk:
             bad = "model allocation above (rows+cols)*k (contradicts peak_bound)"
         if bad:
-            dense = pe * 50 > n * n
-            mism.append(dict(oracle_fail=bool(dense), what=bad + (" -- an array of the order of the full matrix was materialised" if dense else ""), **rec))
+            mism.append(dict(oracle_fail=False, what=bad + " (the property's own bound is respected)", **rec))
     # --- linear-algebra entry points with a structural rule, with and without explicit algorithm ---
     K2, K3, KS, BD, BK, KB = ops["kron2"], ops["kron3"], ops["kronsum2"], ops["block"], ops["block_kron"], ops["kron_block"]
     PK = ops["prod_kron_diag_scalar"]
@@ -410,8 +512,12 @@ def run_cost(ctx, T, flags):
     one = lambda A: np.ones(A.shape[0])  # noqa
     lin = []
 
-    def add(name, A, call, want=None, k=1):
+    allow_generic = set()   # calls whose generic rule is itself matrix-free (integer powers = products, inv)
+
+    def add(name, A, call, want=None, k=1, generic_ok=False):
         lin.append((name, A, call, want, k))
+        if generic_ok:
+            allow_generic.add(name)
     for nm, A in (("kron2", K2), ("kron3", K3), ("block", BD), ("block_kron", BK), ("kron_block", KB), ("prod", PK)):
         add(f"inv({nm})@b", A, lambda A=A: cola.inv(A) @ one(A), None)
         add(f"inv({nm},Auto())@b", A, lambda A=A: cola.inv(A, Auto()) @ one(A), None)
@@ -427,7 +533,7 @@ def run_cost(ctx, T, flags):
         add(f"trace({nm})", A, lambda A=A: LA.trace(A), None)
         add(f"trace({nm},Auto())", A, lambda A=A: LA.trace(A, Auto()), None)
     for nm, A in (("kron2", K2), ("kron3", K3), ("block", BD)):
-        add(f"cholesky({nm})@b", A, lambda A=A: cholesky(A) @ one(A), type(A).__name__.split("[")[0])
+        add(f"cholesky({nm})@b", A, lambda A=A: cholesky(A) @ one(A), None)
         add(f"plu({nm})", A, lambda A=A: plu(A), None)
     for nm, A in (("block", BD), ("diag", ops["diag"]), ("scalar", ops["scalar"]), ("identity", ops["identity"])):
         for fname, f in (("exp", LA.exp), ("log", LA.log), ("sqrt", LA.sqrt)):
@@ -484,15 +590,84 @@ def run_cost(ctx, T, flags):
         # densification of the operator, and is outside this property
         add("inv(kron2,GMRES(max_iters=15))@b", K2, lambda: cola.inv(K2, LA.GMRES(max_iters=15)) @ one(K2), None)
         add("inv(block,GMRES(max_iters=15))@b", BD, lambda: cola.inv(BD, LA.GMRES(max_iters=15)) @ one(BD), None)
+    # --- every structural rule with each admissible python / numpy TYPE of its scalar arguments, at a size where the
+    # generic fallback (dense eigendecomposition of the full matrix) is measurable: n = 1000, factors 10 x 10 x 10
+    from cola.ops import Dense as _Dense, Kronecker as _Kron
+    prng = np.random.default_rng(ctx.seed + 31)
+    K10 = _Kron(*[cola.PSD(_Dense(spd(prng, 10))) for _ in range(3)])
+    alphas = [("2", 2), ("-2", -2), ("12", 12), ("0", 0), ("-1", -1), ("np.int64(-3)", np.int64(-3)), ("np.int64(3)", np.int64(3)),
+              ("np.int32(11)", np.int32(11)), ("np.float32(2.5)", np.float32(2.5)), ("np.float64(0.5)", np.float64(0.5)), ("2.5", 2.5), ("-0.5", -0.5),
+              ("(0.5+0.25j)", complex(0.5, 0.25)), ("True", True)]
+    for an, al in alphas:
+        add(f"pow(kron10x10x10,{an})@b", K10, lambda al=al: (lambda r: (r, r @ one(K10)))(LA.pow(K10, al)), "Kronecker")
+        if full:
+            add(f"pow(kron10x10x10,{an},Auto())@b", K10, lambda al=al: (lambda r: (r, r @ one(K10)))(LA.pow(K10, al, Auto())), "Kronecker")
+        add(f"pow(kron10x10x10,{an},Eig())@b", K10, lambda al=al: (lambda r: (r, r @ one(K10)))(LA.pow(K10, al, LA.Eig())), "Kronecker")
+        add(f"pow(kron10x10x10,{an},alg=Eigh())@b", K10, lambda al=al: (lambda r: (r, r @ one(K10)))(LA.pow(K10, al, alg=LA.Eigh())), "Kronecker")
+    BM = wide["block_mult_1200x2_400x3"]
+    for an, al in alphas[:3] + alphas[5:6] + alphas[8:9] + alphas[10:11]:
+        gok = isinstance(al, (int, np.integer)) and -1 <= int(al) < 10   # integer powers: product([A] * k) / inv, matrix-free
+        add(f"pow(block_mult,{an})@b", BM, lambda al=al: LA.pow(BM, al) @ one(BM), None, 1, gok)
+        add(f"pow(diag,{an})@b", ops["diag"], lambda al=al: LA.pow(ops["diag"], al) @ one(ops["diag"]), None, 1, gok)
+        add(f"pow(scalar,{an},Auto())@b", ops["scalar"], lambda al=al: LA.pow(ops["scalar"], al, Auto()) @ one(ops["scalar"]), None, 1, gok)
+    for kk_ in (1, -2, 5):
+        add(f"diag(diag,{kk_})", ops["diag"], lambda kk_=kk_: LA.diag(ops["diag"], kk_), None)
+        add(f"diag(identity,{kk_},Exact())", ops["identity"], lambda kk_=kk_: LA.diag(ops["identity"], kk_, LA.Exact()), None)
+        add(f"diag(scalar,{kk_})", ops["scalar"], lambda kk_=kk_: LA.diag(ops["scalar"], kk_), None)
+    # --- large multiplicities, many tiny factors, many terms, identity / diagonal factors, matrix right-hand sides
+    ones4 = lambda A: np.ones((A.shape[0], 4))  # noqa
+    for nm in ("block_mult_1200x2_400x3", "block_mult_5000x4", "block_mult_mixed", "block_60blocks"):
+        A = wide[nm]
+        every = full or nm == "block_mult_1200x2_400x3"     # quick tier: the whole battery on one, the core of it on the others
+        add(f"inv({nm})@b", A, lambda A=A: (lambda r: (r, r @ one(A)))(cola.inv(A)), "BlockDiag")
+        add(f"solve({nm},B4,Cholesky())", A, lambda A=A: cola.solve(A, ones4(A), LA.Cholesky()), None, 4)
+        add(f"logdet({nm})", A, lambda A=A: cola.logdet(A), None)
+        add(f"sqrt({nm})@b", A, lambda A=A: (lambda r: (r, r @ one(A)))(LA.sqrt(A)), "BlockDiag")
+        add(f"cholesky({nm})@b", A, lambda A=A: (lambda r: (r, r @ one(A)))(cholesky(A)), "BlockDiag")
+        if every:
+            add(f"inv({nm},LU())@B4", A, lambda A=A: cola.inv(A, LA.LU()) @ ones4(A), None, 4)
+            add(f"solve({nm},b)", A, lambda A=A: cola.solve(A, one(A)), None)
+            add(f"logdet({nm},Cholesky())", A, lambda A=A: cola.logdet(A, LA.Cholesky()), None)
+            add(f"diag({nm})", A, lambda A=A: LA.diag(A), None)
+            add(f"trace({nm},Exact())", A, lambda A=A: LA.trace(A, LA.Exact()), None)
+            add(f"exp({nm},Auto())@b", A, lambda A=A: (lambda r: (r, r @ one(A)))(LA.exp(A, Auto())), "BlockDiag")
+            add(f"log({nm},alg=Eigh())@b", A, lambda A=A: LA.log(A, alg=LA.Eigh()) @ one(A), None)
+            add(f"plu({nm})", A, lambda A=A: plu(A), None)
+    for nm in ("kron_12x2", "kron_8x3", "kron_ident_dense", "kron_dense_ident", "kron_diag_dense", "nested_deep"):
+        A = wide[nm]
+        add(f"inv({nm})@b", A, lambda A=A: (lambda r: (r, r @ one(A)))(cola.inv(A)), "Kronecker")
+        add(f"solve({nm},B4,LU())", A, lambda A=A: cola.solve(A, ones4(A), LA.LU()), None, 4)
+        add(f"logdet({nm})", A, lambda A=A: cola.logdet(A), None)
+        add(f"diag({nm})", A, lambda A=A: LA.diag(A), None)
+        add(f"trace({nm})", A, lambda A=A: LA.trace(A), None)
+        add(f"sqrt({nm},Auto())@b", A, lambda A=A: (lambda r: (r, r @ one(A)))(LA.sqrt(A, Auto())), "Kronecker")
+        if nm in ("kron_12x2", "kron_8x3", "kron_diag_dense"):
+            add(f"cholesky({nm})@b", A, lambda A=A: (lambda r: (r, r @ one(A)))(cholesky(A)), "Kronecker")
+            add(f"plu({nm})", A, lambda A=A: plu(A), None)
+    A = wide["kronsum_5terms"]
+    add("exp(kronsum_5terms,Auto())@b", A, lambda A=A: (lambda r: (r, r @ one(A)))(LA.exp(A, Auto())), "Kronecker")
+    add("diag(kronsum_5terms)", A, lambda A=A: LA.diag(A), None)
+    add("trace(kronsum_5terms)", A, lambda A=A: LA.trace(A), None)
+    A = wide["sum_20terms"]
+    add("diag(sum_20terms)", A, lambda A=A: LA.diag(A), None)
+    add("trace(sum_20terms,Exact())", A, lambda A=A: LA.trace(A, LA.Exact()), None)
+    for nm in ("kron_complex", "kron_float32", "block_complex_mult"):
+        A = wide[nm]
+        add(f"inv({nm})@b", A, lambda A=A: cola.inv(A) @ np.ones(A.shape[0], dtype=A.dtype), None)
+        add(f"logdet({nm})", A, lambda A=A: cola.logdet(A), None)
+        add(f"diag({nm})", A, lambda A=A: LA.diag(A), None)
     lcases = []
     for name, A, call, want, k in lin:
-        lcases.append((name, shape_tree(A), k))
+        t_ = shape_tree(A)
+        lcases.append((name, t_ if t_ is not None else "(SIdent 1)", k))
     lmodel, log = coq_cost(lcases)
     if lmodel is None:
         mism.append(dict(oracle_fail=False, what="cost shard (linalg) did not compile; only the absolute bound peak < n*n is checked", log=log[-1500:]))
         lmodel = _NoModel()
     nlin = 0
     worst = 0.0
+    worst_pb = 0.0
+    slow = []
     generic_selected = []
     for name, A, call, want, k in lin:
         n = A.shape[0]
@@ -512,13 +687,27 @@ def run_cost(ctx, T, flags):
             gpos = [i for i, c in enumerate(T["U"].LATTICE[g][0]) if isinstance(c, str) and c.startswith("OPS")][0]
             hint = T["type_names"][r["types"][gpos]]
             sel = f"{g}({', '.join(T['type_names'][t] for t in r['types'])})"
-            if hint in ("LinearOperator", "Any") and r["cond"] is None:
+            if hint in ("LinearOperator", "Any") and r["cond"] is None and name not in allow_generic:
                 generic_selected.append((name, sel))
         pe = peak / 8.0
-        if pe >= n * n:
-            mism.append(dict(oracle_fail=True, what="linear-algebra entry point on a structured operator allocated at least the dense n*n matrix" + (f" ({err})" if err else ""),
-                             case=name, n=n, peak_elems=round(pe), dense=n * n, times_dense=round(pe / (n * n), 2), seconds=round(dt, 3)))
+        item = max(np.dtype(A.dtype).itemsize, 8)
+        operand = n * k * item * (2 if ("Eig()" in name or "j)" in name) else 1)   # complex results take two units
+        pbound = property_bound(operand, A, linalg=True)
+        if "max_iters=15" in name:
+            pbound += 8 * 16 * operand   # Krylov bases of the explicitly requested iterative algorithm
+        worst_pb = max(worst_pb, peak / pbound)
+        if peak > pbound:
+            mism.append(dict(oracle_fail=True, what="linear-algebra entry point on a structured operator: peak additional memory exceeds the property's bound "
+                                                    f"{K1_LINALG} x operand + {K2_LINALG} x (dense sizes of the factors) + slack" + (f" ({err})" if err else ""),
+                             case=name, n=n, peak_bytes=int(peak), bound_bytes=int(pbound), operand_bytes=int(operand), factor_bytes=int(leaf_bytes(A)),
+                             dense_bytes=n * n * item, times_bound=round(peak / pbound, 1), selected_rule=sel, seconds=round(dt, 3)))
             continue
+        if want and not err:
+            got_t = type(out[0] if isinstance(out, tuple) else out).__name__.split("[")[0]
+            if got_t != want:
+                mism.append(dict(oracle_fail=True, what=f"result of a structural rule is a {got_t}, not a {want}: the call did not work factor by factor",
+                                 case=name, n=n, peak_bytes=int(peak), selected_rule=sel))
+                continue
         if m is None:
             if err and "LookupError" in err:
                 mism.append(dict(oracle_fail=True, what=f"entry point raised {err}", case=name, n=n))
@@ -528,6 +717,7 @@ def run_cost(ctx, T, flags):
             bound += 8 * 16 * n      # Krylov bases of the explicitly requested iterative algorithm: (max_iters+1) x n per copy
         worst = max(worst, pe / bound)
         rec = dict(case=name, n=n, peak_elems=round(pe), model_bound=bound, storage=m["storage"], seconds=round(dt, 3), selected_rule=sel)
+        slow.append((round(dt, 2), name))
         if len(samples) < 9 and nlin % 11 == 0:
             samples.append(rec)
         if sel is not None and generic_selected and generic_selected[-1][0] == name:
@@ -549,7 +739,11 @@ def run_cost(ctx, T, flags):
         if want and hasattr(out, "shape") is False:
             pass
     extra = dict(matmat_cases=len(cases), linalg_cases=nlin, matmat_peak_over_model_total=ratios,
-                 linalg_worst_peak_over_bound=round(worst, 3), big_n=sorted({A.shape[0] for A in ops.values()}))
+                 linalg_worst_peak_over_bound=round(worst, 3), matmat_worst_peak_over_property_bound=round(worst_mm, 3),
+                 linalg_worst_peak_over_property_bound=round(worst_pb, 3),
+                 property_bound=dict(K1_matmat=K1_MATMAT, K2_matmat=K2_MATMAT, K1_linalg=K1_LINALG, K2_linalg=K2_LINALG, slack_bytes=SLACK),
+                 slowest_linalg=sorted(slow, reverse=True)[:8],
+                 big_n=sorted({A.shape[0] for A in list(ops.values()) + list(wide.values())}))
     return mism, len(cases) + nlin, extra, samples
 
 
